@@ -8,7 +8,7 @@ META = dict(
   outside=['data races inside one object used from two threads (not promised by the library)', 'instructions not executed by the havoc run are covered by the scan only'],
 )
 OBLIGATIONS = [
-  O('C14.a-global-havoc-execute', 'eng_whole.cpp', 'harness_history_vs_fresh', unwind=14, timeout=1200, object_bits=16, bound='all contents of InvalidPoint64/InvalidPointD/InvalidRect64/InvalidRectD (the writable library globals) symbolic before Execute; two crossing triangles', desc='Execute does not depend on (nor, by the scan, write) any writable global'),
+  O('C14.a-global-havoc-execute', 'eng_whole.cpp', 'harness_history_vs_fresh', unwind=14, timeout=1800, object_bits=16, tiers='t', bound='all contents of InvalidPoint64/InvalidPointD/InvalidRect64/InvalidRectD (the writable library globals) symbolic before Execute; two crossing triangles', desc='Execute does not depend on (nor, by the scan, write) any writable global'),
   O('C14.a-global-scan', 'lib_all.cpp', 'instantiate_all', kind='irscan', bound='all library code compiled into one module', desc='no writable global or function-local static is written (or has its address taken) outside static initialisation',
     allow_globals=('Clipper2Lib::dllCallback64', 'Clipper2Lib::dllCallbackD')),
   O('C14.a-global-scan-usingz', 'lib_all.cpp', 'instantiate_all', kind='irscan', usingz=True, bound='all library code, USINGZ configuration', desc='as above',
